@@ -91,7 +91,9 @@ func runC12(w *fw.W) {
 	// ints, strs, arrays, of objects with a user B, of prototypes), never a function of its own (empty) props
 	for _, src := range []string{"1.bear", "0.bear", "'a.bear", `"".bear`, "[1].bear", "[].bear", "1.5.bear", "0.0.bear", "objB1.bear", "objB1.bear.bear", "objB0.bear",
 		"objBint.bear", "objBnil.bear.bear", "{}.bear", "{a: 1}.bear.bear", "1.bear({})", "0.bear({})", "true.bear", "false.bear", "nil.bear", "Int.bear", "Obj.bear", "PIntT.new(0).bear",
-		"PIntF.new(7).bear", "{name: 1, B: m{raise ValueErr.new(\"cannot boolify\")}}", "{B: m{raise ValueErr.new(\"cannot boolify\")}}.bear", "{B: m{1 / 0}}.bear({x: 1})", "%{1: 2}.bear", "%{}.bear", "(1:3).bear", "{|x| x}.bear", "1.bear.bear({})", "objB1.bear({})", "objB0.bear({z: 1})"} {
+		"PIntF.new(7).bear", "`true`.decJSON", "`false`.decJSON", "`[true, false]`.decJSON[0]", "`[true, false]`.decJSON[1]", "`{\"t\": true}`.decJSON.t", "JSON.dec(`false`)",
+		"1 == 1", "1 == 2", "!nil", "!1", "[].empty?", "[1].empty?", "true && true", "nil.nil?", "`1`.decJSON", "`0`.decJSON", "`null`.decJSON", "`\"\"`.decJSON",
+		"{name: 1, B: m{raise ValueErr.new(\"cannot boolify\")}}", "{B: m{raise ValueErr.new(\"cannot boolify\")}}.bear", "{B: m{1 / 0}}.bear({x: 1})", "%{1: 2}.bear", "%{}.bear", "(1:3).bear", "{|x| x}.bear", "1.bear.bear({})", "objB1.bear({})", "objB0.bear({z: 1})"} {
 		name := fmt.Sprintf("x%d", len(pool.Vals))
 		o := ip.Run(name+" := "+src, interp.Options{Env: pool.Env, Fuel: -1})
 		if !o.OK() {
